@@ -1015,6 +1015,183 @@ fn extra_timing_cases() -> Vec<(String, Option<(String, String)>)> {
 }
 
 //
+// A coded (gzip / deflate) body cut by the deadline, and a caller that reads on after the first
+// error: no read may report a clean end of body. Free running; T = 600 ms; the peer stalls between
+// head and body, inside the 10-byte gzip member header, or inside the compressed data.
+//
+fn coded_body_cut_cases() -> Vec<(String, Option<(String, String)>)> {
+    use flate2::write::{GzEncoder, ZlibEncoder};
+    let payload: Vec<u8> = (0..3000u32).map(|i| b"the quick brown fox jumps over the lazy dog 0123456789"[(i as usize * 7 + (i as usize / 13)) % 54]).collect();
+    let gz = {
+        let mut e = GzEncoder::new(Vec::new(), flate2::Compression::new(6));
+        e.write_all(&payload).unwrap();
+        e.finish().unwrap()
+    };
+    let zl = {
+        let mut e = ZlibEncoder::new(Vec::new(), flate2::Compression::new(6));
+        e.write_all(&payload).unwrap();
+        e.finish().unwrap()
+    };
+    let mut cells: Vec<(String, Vec<u8>)> = Vec::new();
+    for (coding, stream) in [("gzip", &gz), ("deflate", &zl)] {
+        for framing in ["close", "length", "chunked"] {
+            for (cut_name, cut) in [("between-head-and-body", 0usize), ("inside-coding-header", 5), ("inside-data", stream.len() / 2)] {
+                let mut wire = format!("HTTP/1.1 200 OK\r\nContent-Encoding: {coding}\r\n").into_bytes();
+                match framing {
+                    "length" => wire.extend_from_slice(format!("Content-Length: {}\r\n\r\n", stream.len()).as_bytes()),
+                    "chunked" => wire.extend_from_slice(format!("Transfer-Encoding: chunked\r\n\r\n{:x}\r\n", stream.len()).as_bytes()),
+                    _ => wire.extend_from_slice(b"\r\n"),
+                }
+                wire.extend_from_slice(&stream[..cut]);
+                cells.push((format!("coded-body-cut:{coding}:{framing}:{cut_name}"), wire));
+            }
+        }
+    }
+    let payload = Arc::new(payload);
+    std::thread::scope(|sc| {
+        let hs: Vec<_> = cells
+            .into_iter()
+            .map(|(name, wire)| {
+                let payload = payload.clone();
+                sc.spawn(move || {
+                    let listener = TcpListener::bind("127.0.0.1:0").unwrap();
+                    let port = listener.local_addr().unwrap().port();
+                    let server = std::thread::spawn(move || {
+                        if let Ok((mut s, _)) = listener.accept() {
+                            let _ = s.set_nodelay(true);
+                            let mut buf = [0u8; 2048];
+                            let _ = s.set_read_timeout(Some(Duration::from_secs(5)));
+                            let _ = s.read(&mut buf);
+                            let _ = s.write_all(&wire);
+                            // silent from here on; the connection stays open
+                            std::thread::sleep(Duration::from_millis(3500));
+                        }
+                    });
+                    let t0 = Instant::now();
+                    let url = format!("http://127.0.0.1:{port}/x");
+                    let res = guarded(|| -> Result<(Vec<u8>, Vec<String>), String> {
+                        let mut resp = attohttpc::get(&url)
+                            .timeout(Duration::from_millis(600))
+                            .read_timeout(Duration::from_secs(20))
+                            .send()
+                            .map_err(|e| format!("send: {e}"))?;
+                        let mut got = Vec::new();
+                        let mut trace = Vec::new();
+                        let mut buf = [0u8; 512];
+                        let mut errors = 0;
+                        // read on after errors: four more reads behind the first error
+                        while errors < 5 && trace.len() < 200 && t0.elapsed() < Duration::from_millis(3000) {
+                            match resp.read(&mut buf) {
+                                Ok(0) => {
+                                    trace.push("Ok(0)".to_string());
+                                    break;
+                                }
+                                Ok(n) => {
+                                    got.extend_from_slice(&buf[..n]);
+                                    trace.push(format!("Ok({n})"));
+                                }
+                                Err(e) => {
+                                    errors += 1;
+                                    trace.push(format!("Err({:?})", e.kind()));
+                                }
+                            }
+                        }
+                        Ok((got, trace))
+                    });
+                    let el = t0.elapsed();
+                    drop(server);
+                    let viol = match res {
+                        Err(p) => Some(("panic".to_string(), format!("panicked: {p}"))),
+                        Ok(Err(_)) if el <= Duration::from_millis(2600) => None, // send() itself failed in time
+                        Ok(Err(e)) => Some(("phase-not-bounded".to_string(), format!("{e} after {el:?} (T = 600 ms)"))),
+                        Ok(Ok((got, trace))) => {
+                            let shown: Vec<&String> = trace.iter().rev().take(6).rev().collect();
+                            if trace.last().map(String::as_str) == Some("Ok(0)") {
+                                Some((
+                                    "cut-body-reported-complete".to_string(),
+                                    format!("the peer stalled inside the coded body and the deadline (600 ms) cut it; a caller that reads on got a clean end of body: last reads {shown:?}, {} of {} payload bytes delivered", got.len(), payload.len()),
+                                ))
+                            } else if !payload.starts_with(&got) {
+                                Some(("cut-body-wrong-bytes".to_string(), format!("{} bytes delivered before the error are not a prefix of the payload", got.len())))
+                            } else if el > Duration::from_millis(2600) || !trace.iter().any(|t| t.starts_with("Err")) {
+                                Some(("phase-not-bounded".to_string(), format!("reads went on for {el:?} (T = 600 ms): last reads {shown:?}")))
+                            } else {
+                                None
+                            }
+                        }
+                    };
+                    (name, viol)
+                })
+            })
+            .collect();
+        hs.into_iter().map(|h| h.join().unwrap()).collect()
+    })
+}
+
+//
+// Descriptor exhaustion as an environment answer: with a deadline asked for, the exchange is bounded
+// by it (or fails at once) when the k-th descriptor the request needs cannot be had, for k = 1..=4.
+// The soft RLIMIT_NOFILE is lowered so that exactly k-1 descriptor numbers are free, the request
+// runs against a peer that accepts the connection (kernel backlog) and never answers, and the
+// limit is restored. Nothing else in the process opens descriptors meanwhile (C13 runs this alone).
+//
+fn fd_exhaustion_cells() -> Vec<(String, Option<(String, String)>)> {
+    let mut out = Vec::new();
+    // the peer: a listener that is never accepted from; the kernel completes the handshake
+    let listener = TcpListener::bind("127.0.0.1:0").unwrap();
+    let port = listener.local_addr().unwrap().port();
+    let url = format!("http://127.0.0.1:{port}/x");
+    let mut old = libc::rlimit { rlim_cur: 0, rlim_max: 0 };
+    if unsafe { libc::getrlimit(libc::RLIMIT_NOFILE, &mut old) } != 0 {
+        { eprintln!("MACHINERY: getrlimit(RLIMIT_NOFILE) failed"); std::process::exit(2); }
+    }
+    for free in 0..4usize {
+        // the smallest limit L with exactly `free` unused descriptor numbers below it
+        let used: std::collections::BTreeSet<u64> = std::fs::read_dir("/proc/self/fd")
+            .map(|d| d.filter_map(|e| e.ok()?.file_name().to_str()?.parse().ok()).collect())
+            .unwrap_or_default();
+        // (the read_dir handle itself is closed again by now; its number shows up as used: harmless, it only shifts L)
+        let mut l = 0u64;
+        let mut n_free = 0usize;
+        while n_free < free || used.contains(&l) {
+            if !used.contains(&l) {
+                n_free += 1;
+            }
+            l += 1;
+        }
+        // now [0, l) holds exactly `free` unused numbers and l itself is unused: limit l
+        let lim = libc::rlimit { rlim_cur: l.max(3), rlim_max: old.rlim_max };
+        if unsafe { libc::setrlimit(libc::RLIMIT_NOFILE, &lim) } != 0 {
+            { eprintln!("MACHINERY: setrlimit(RLIMIT_NOFILE) failed"); std::process::exit(2); }
+        }
+        let t0 = Instant::now();
+        let res = guarded(|| {
+            attohttpc::get(&url)
+                .timeout(Duration::from_millis(400))
+                .read_timeout(Duration::from_millis(2500))
+                .connect_timeout(Duration::from_secs(5))
+                .send()
+                .and_then(|r| r.bytes())
+                .map(|b| b.len())
+                .map_err(|e| e.to_string())
+        });
+        let el = t0.elapsed();
+        unsafe { libc::setrlimit(libc::RLIMIT_NOFILE, &old) };
+        let name = format!("descriptor-exhaustion:{free}-free");
+        let viol = match &res {
+            Ok(Err(_)) if el <= Duration::from_millis(400 + 1200) => None,
+            other => Some((
+                "deadline-not-enforced-without-descriptors".to_string(),
+                format!("timeout(400 ms), read timeout 2.5 s, silent peer, {free} descriptor number(s) left when send() starts: returned {other:?} after {el:?}"),
+            )),
+        };
+        out.push((name, viol));
+    }
+    drop(listener);
+    out
+}
+
+//
 // The connect phase: the peer never answers the SYN. The overall timeout T bounds this phase like
 // every other one, whatever the (larger) connect timeout, for an address literal, a name with one
 // address, a name with several, a proxy, and the target of a redirect.
@@ -1210,6 +1387,8 @@ fn loser_attempt_case() -> (String, Option<(String, String)>, bool) {
 }
 
 pub fn c13(ctx: &Ctx) -> Report {
+    // before anything else runs: nothing else may open or close descriptors while the limit is lowered
+    let fd_cells = fd_exhaustion_cells();
     // Part B first (free running, real clock), all phases in parallel
     let ps = phases();
     let phase_results: Vec<(Duration, String, Option<(String, String)>)> = std::thread::scope(|s| {
@@ -1234,6 +1413,8 @@ pub fn c13(ctx: &Ctx) -> Report {
         }
     }
     extras.push(tiny_timeout_sweep());
+    extras.extend(coded_body_cut_cases());
+    extras.extend(fd_cells);
     {
         let (name, viol, ran) = loser_attempt_case();
         if ran {
